@@ -23,6 +23,8 @@ def run(ctx):
     ctx.ensure_ppl()
     broken = ctx.prove(["PPLV.Props.C04"])
     quick = ctx.tier == "quick"
+    if not quick:
+        broken += ctx.leanchecker(["PPLV.Props.C04"])
     w.run_shapes(ctx, "c04", w.C04_TYPES, n_hist=700 if quick else 20000, length=12 if quick else 25,
                  maxdim=3 if quick else 4)
     for b in broken:
